@@ -74,6 +74,11 @@ class Gen:
         return '<generator of %d>' % len(self.items)
 
 
+class SetList(list):
+    """a set: an insertion-ordered list without duplicates (membership by the interpreter's eq); what set(...) returns"""
+    __slots__ = ()
+
+
 class PyExc(Exception):
     """an exception raised by the interpreted code"""
 
@@ -123,7 +128,6 @@ class Interp:
         self.where = where
         self._defaults = {}      # id(function node) -> default values, evaluated once as Python does (shared mutable defaults!)
         self._cattrs = {}        # (class qual, name) -> class-level attribute value, evaluated once (shared class state)
-        self._isgen = {}         # id(function node) -> does its own body (nested defs excluded) contain yield?
         self._ystack = []        # collectors of the generator bodies being run (innermost last)
 
     # ---- failure
@@ -138,7 +142,7 @@ class Interp:
 
     # ---- generators (run eagerly, see Gen)
     def is_generator(self, fn):
-        r = self._isgen.get(id(fn))
+        r = getattr(fn, '_ointerp_isgen', None)      # kept on the AST node: interpreters are created per configuration
         if r is None:
             r = False
             todo = list(fn.body) if isinstance(fn, ast.FunctionDef) else []
@@ -148,7 +152,7 @@ class Interp:
                     r = True
                 elif not isinstance(n, (ast.FunctionDef, ast.AsyncFunctionDef, ast.Lambda, ast.ClassDef)):
                     todo.extend(ast.iter_child_nodes(n))
-            self._isgen[id(fn)] = r
+            fn._ointerp_isgen = r
         return r
 
     def run_body(self, fn, env, mod, cls):
@@ -378,8 +382,9 @@ class Interp:
         elif isinstance(tgt, ast.Attribute):
             o = self.ev(tgt.value, env, mod, cls)
             if isinstance(o, ClassRef):
-                self._cattrs[(o.cls.qual, self.mangle(tgt.attr, cls))] = v
-                if self.mangle(tgt.attr, cls) not in o.cls.attrs:
+                rn = self.raw(o.cls, self.mangle(tgt.attr, cls))
+                self._cattrs[(o.cls.qual, rn)] = v
+                if rn not in o.cls.attrs:
                     self.fail(tgt, 'new class attribute %s.%s created at run time' % (o.cls.name, tgt.attr))
                 return
             if not isinstance(o, Obj):
@@ -388,7 +393,7 @@ class Interp:
             # property setter?
             if o.cls is not None and hasattr(o.cls, 'methods'):
                 for k in self.idx.mro(o.cls):
-                    st = k.methods.get('%s#setter' % name)
+                    st = k.methods.get('%s#setter' % self.raw(k, name))
                     if st is not None:
                         self.call_function(FuncRef(k.mod, st, k), [v], {}, tgt, selfobj=o)
                         return
@@ -424,6 +429,19 @@ class Interp:
         if name.startswith('__') and not name.endswith('__') and cls is not None:
             return '_%s%s' % (cls.name.lstrip('_'), name)
         return name
+
+    @staticmethod
+    def raw(k, nm):
+        """spelling inside the body of class k of the attribute name nm as seen at run time: a private name `__x` written in
+        k's body is stored as `_K__x`, so `_K__x` is looked up as `__x` in k's own tables (and an unmangled `__x` finds
+        nothing, as in Python)"""
+        if nm.startswith('_') and not nm.endswith('__'):
+            if nm.startswith('__'):
+                return None
+            pre = '_%s__' % k.name.lstrip('_')
+            if nm.startswith(pre) and len(nm) > len(pre):
+                return nm[len(pre) - 2:]
+        return nm
 
     # ---- values
     def truth(self, v):
@@ -515,10 +533,11 @@ class Interp:
     def class_attr(self, c, name, node):
         """class-level attribute / method of an indexed class"""
         for k in self.idx.mro(c):
-            if name in k.attrs:
-                return True, self._class_value(k, name)
-            if name in k.methods:
-                return True, FuncRef(k.mod, k.methods[name], k)
+            rn = self.raw(k, name)
+            if rn in k.attrs:
+                return True, self._class_value(k, rn)
+            if rn in k.methods:
+                return True, FuncRef(k.mod, k.methods[rn], k)
         return False, None
 
     def _class_value(self, k, name):
@@ -536,13 +555,14 @@ class Interp:
                 raise PyExc('AttributeError %s' % name)
             if o.cls is not None:
                 for k in self.idx.mro(o.cls):
-                    if nm in k.methods:
-                        fn = k.methods[nm]
+                    rn = self.raw(k, nm)
+                    if rn in k.methods:
+                        fn = k.methods[rn]
                         if any(isinstance(d, ast.Name) and d.id == 'property' for d in fn.decorator_list):
                             return self.call_function(FuncRef(k.mod, fn, k), [], {}, node, selfobj=o)
                         return Bound(o, FuncRef(k.mod, fn, k))
-                    if nm in k.attrs:
-                        return self._class_value(k, nm)
+                    if rn in k.attrs:
+                        return self._class_value(k, rn)
             raise PyExc('AttributeError: %s' % name)
         if isinstance(o, ClassRef):
             ok, v = self.class_attr(o.cls, self.mangle(name, cls), node)
@@ -758,7 +778,7 @@ class Interp:
                 o.attrs[k] = self.deepcopy(x, memo)
             return o
         if isinstance(v, list):
-            return [self.deepcopy(x, memo) for x in v]
+            return type(v)([self.deepcopy(x, memo) for x in v])
         if isinstance(v, tuple):
             return tuple(self.deepcopy(x, memo) for x in v)
         if isinstance(v, dict):
@@ -770,6 +790,15 @@ class Interp:
             if isinstance(recv, str) and name in _STR_METHODS:
                 r = getattr(recv, name)(*args)
                 return list(r) if isinstance(r, (tuple,)) else r
+            if isinstance(recv, SetList) and name in ('add', 'discard', 'update'):
+                for x in ([args[0]] if name != 'update' else self.iterate(args[0], node)):
+                    hits = [i for i, y in enumerate(recv) if self.eq(x, y)]
+                    if name == 'discard':
+                        if hits:
+                            del recv[hits[0]]
+                    elif not hits:
+                        recv.append(x)
+                return None
             if isinstance(recv, list) and name in _LIST_METHODS:
                 if name == 'sort':
                     key = kwargs.get('key')
@@ -859,7 +888,7 @@ class Interp:
                 for x in (self.iterate(args[0], node) if args else []):
                     if not any(self.eq(x, y) for y in out):
                         out.append(x)
-                return out
+                return SetList(out)
             elif name == 'sorted' and args:
                 return self.sorted_(self.iterate(args[0], node), kwargs.get('key'), kwargs.get('reverse', False), node)
             elif name == 'filter' and len(args) == 2:
@@ -942,9 +971,11 @@ class Interp:
     def isinstance_(self, v, t, node):
         if isinstance(t, tuple) and t and t[0] == 'builtin':
             want = {'list': list, 'str': str, 'int': int, 'dict': dict, 'tuple': tuple, 'bool': bool, 'float': float}.get(t[1])
+            if t[1] == 'set':
+                return isinstance(v, SetList)
             if want is None:
                 self.fail(node, 'isinstance with ' + t[1])
-            return isinstance(v, want)
+            return isinstance(v, want) and not (want is list and isinstance(v, SetList))
         if isinstance(t, ClassRef):
             if isinstance(v, Obj) and v.cls is not None and hasattr(v.cls, 'methods'):
                 return t.cls in self.idx.mro(v.cls)
